@@ -1,6 +1,9 @@
 // Contracts for hulc/src/bdl/envelope/geom.rs (polygon helpers used by the geometry conversion).
 #![allow(dead_code, unused_imports, non_snake_case, clippy::all)]
 
+/// Hash of every source file of the scratch copy (see engine/common.py): makes cargo rebuild this crate whenever any source changed.
+pub const VERIF_SRC_HASH: Option<&str> = option_env!("VERIF_SRC_HASH");
+
 use super::*;
 
 #[cfg(kani)]
